@@ -663,10 +663,6 @@ def emit_lean(data: dict, outdir: Path | None = None) -> dict:
         + "\n\n/-- domains with schemas in onnx.defs for which no class is generated (documented exception) -/\n"
         + "def ungeneratedDomains : List Nat := "
         + L_list([str(enc(d)) for d in ungenerated])
-        + "\n\n/-- finding C17-F1: cells (domain, class version, operator) where a deprecated schema is in force and a live\n"
-        + "older definition is still inherited; `deprecatedLive_exact` checks each entry, the grid checks there is no other -/\n"
-        + "def deprecatedLive : List (Nat × Nat × Nat) := "
-        + L_list([f"({enc(d)}, {v}, {enc(n)})" for d, v, n in dep_live_cells(data["classes"], data["schemas"])])
         + "\n\n/-- per domain, every operator name occurring in a schema or as a generated method -/\n"
         + "def opNames : List (Nat × List Nat) := "
         + L_list([f"({enc(d)}, {L_list([str(enc(n)) for n in sorted(names_by_dom[d])])})" for d in all_doms], per_line=True)
@@ -687,7 +683,7 @@ def emit_lean(data: dict, outdir: Path | None = None) -> dict:
                 + "import OV.Gen.C17Tables\nnamespace OV.Gen.C17\nopen OV.C17\n\n"
                 + f"/-- domain {d!r}: {sl[0]} … {sl[-1]} -/\n"
                 + f"def grid{k} : Nat × List Nat := ({enc(d)}, {L_list([str(enc(n)) for n in sl])})\n\n"
-                + f"theorem grid{k}_ok : gridOk schemas classes ungeneratedDomains deprecatedLive grid{k}.1 grid{k}.2 = true := by decide +kernel\n\n"
+                + f"theorem grid{k}_ok : gridOk schemas classes ungeneratedDomains grid{k}.1 grid{k}.2 = true := by decide +kernel\n\n"
                 + "end OV.Gen.C17\n"
             )
             k += 1
@@ -698,7 +694,7 @@ def emit_lean(data: dict, outdir: Path | None = None) -> dict:
         + "/-- the chunks, in order, cover `opNames` -/\n"
         + "def gridChunks : List (Nat × List Nat) := "
         + L_list([f"grid{i}" for i in range(k)])
-        + "\n\ntheorem gridChunks_ok : ∀ g ∈ gridChunks, gridOk schemas classes ungeneratedDomains deprecatedLive g.1 g.2 = true := by\n"
+        + "\n\ntheorem gridChunks_ok : ∀ g ∈ gridChunks, gridOk schemas classes ungeneratedDomains g.1 g.2 = true := by\n"
         + "  intro g hg\n  simp only [gridChunks, List.mem_cons, List.mem_nil_iff, or_false] at hg\n"
         + "  rcases hg with "
         + " | ".join(["rfl"] * k)
@@ -727,8 +723,6 @@ def emit_lean(data: dict, outdir: Path | None = None) -> dict:
         + "theorem classes_generated : classes.all (fun c => !ungeneratedDomains.contains c.domain) = true := by decide +kernel\n\n"
         + "theorem schemas_have_class : schemas.all (fun s => ungeneratedDomains.contains s.domain ||\n"
         + "    classes.any (fun c => c.domain == s.domain && c.version == s.since)) = true := by decide +kernel\n\n"
-        + "/-- every listed cell really is one: deprecated schema in force, live inherited method binding another schema -/\n"
-        + "theorem deprecatedLive_exact : deprecatedLive.all (fun x => depLiveWitness schemas classes x.1 x.2.1 x.2.2) = true := by decide +kernel\n\n"
         + "/-- every generated method forwards each positional parameter (then `*vararg`) through `_prepare_inputs` in order and\n"
         + "each keyword-only parameter as `kw=kw` (stubs forward nothing) -/\n"
         + "theorem forwarding_ok : classes.all (fun c => c.methods.all forwardsOwnParams) = true := by decide +kernel\n\n"
